@@ -48,6 +48,9 @@ pub struct FaultPlan {
     pub at: u64,
     /// also fail every later call
     pub sticky: bool,
+    /// a failing `write` first writes the first half of its buffer (a short write followed by an
+    /// error, as a full disk or a dropped connection produces)
+    pub partial: bool,
 }
 
 type Inode = Arc<Mutex<Vec<u8>>>;
@@ -363,7 +366,23 @@ impl Seek for Handle {
 
 impl Write for Handle {
     fn write(&mut self, buf: &[u8]) -> io::Result<usize> {
-        self.fs.tick("write", &self.path)?;
+        if let Err(e) = self.fs.tick("write", &self.path) {
+            let partial = self.fs.inner.lock().fault.as_ref().map_or(false, |f| f.partial);
+            if partial && buf.len() >= 2 {
+                let half = buf.len() / 2;
+                let _ = self.write_unchecked(&buf[..half]);
+            }
+            return Err(e);
+        }
+        self.write_unchecked(buf)
+    }
+    fn flush(&mut self) -> io::Result<()> {
+        Ok(())
+    }
+}
+
+impl Handle {
+    fn write_unchecked(&mut self, buf: &[u8]) -> io::Result<usize> {
         let mut g = self.fs.inner.lock();
         let mut v = self.node.lock();
         if self.append {
@@ -388,9 +407,6 @@ impl Write for Handle {
             self.fs.log(&mut g, op);
         }
         Ok(buf.len())
-    }
-    fn flush(&mut self) -> io::Result<()> {
-        Ok(())
     }
 }
 
